@@ -909,6 +909,18 @@ def join_states(ctx, a, b, tag, widen=False, thresholds=()):
     for k in a.store:
         if k in b.store:
             out.store[k] = jv(a.store[k], b.store[k], (k,))
+    # model-local temporaries (not in the store) must survive joins inside nested analyses
+    for pv in ctx.pins:
+        for _, i in iter_ints(pv):
+            t = i.vid
+            if t not in out.itv and t in a.itv and t in b.itv:
+                la, ha = a.itv[t]
+                lb, hb = b.itv[t]
+                out.itv[t] = (min(la, lb), max(ha, hb))
+                ma.setdefault(t, t)
+                mb.setdefault(t, t)
+                if t in a.taint or t in b.taint:
+                    out.taint.add(t)
     if widen and not changed_scalar[0] and any(old != hull for (old, hull, _) in pending.values()):
         # staged widening: element abstractions are widened only once the scalars have been stable
         # for a few rounds
